@@ -397,7 +397,9 @@ def runtime_part(run, tier, seed):
                 fo = shape[0] * int(np.prod(shape[2:]))
                 specs = [("xavier_uniform_", lambda t: init.xavier_uniform_(t, 1.7), "uniform", 1.7 * math.sqrt(6.0 / (fi + fo))),
                          ("xavier_normal_", lambda t: init.xavier_normal_(t, 1.7), "normal", 1.7 * math.sqrt(2.0 / (fi + fo)))]
-                for mode, fan in (("fan_in", fi), ("fan_out", fo)):
+                # the mode is matched by VALUE: a string built at run time (read from a config file, lower-cased, joined) equals the literal without being the same object
+                runtime = {"fan_in": "".join(["fan", "_", "in"]), "fan_out": "FAN_OUT".lower()}
+                for mode, fan in (("fan_in", fi), ("fan_out", fo), (runtime["fan_in"], fi), (runtime["fan_out"], fo)):
                     for nl, a, gain in (("leaky_relu", 0.2, math.sqrt(2.0 / (1 + 0.2 ** 2))), ("relu", 0, math.sqrt(2.0)), ("tanh", 0, 5.0 / 3), ("linear", 0, 1.0)):
                         specs.append(("kaiming_uniform_", lambda t, mode=mode, nl=nl, a=a: init.kaiming_uniform_(t, a, mode, nl), "uniform", gain * math.sqrt(3.0 / fan)))
                         specs.append(("kaiming_normal_", lambda t, mode=mode, nl=nl, a=a: init.kaiming_normal_(t, a, mode, nl), "normal", gain / math.sqrt(fan)))
